@@ -23,6 +23,16 @@ NOTES = (
 )
 
 CHECKS = {
+    "C10": {
+        "engine": "kani",
+        "technique": "bounded model checking (Kani/CBMC) against byte-level reference grammars",
+        "text": "Name::is_valid_syntax vs [_A-Za-z][_0-9A-Za-z]* for every valid-UTF-8 string <= 6 bytes (8 thorough); every Name "
+                "constructor and the serde visitors funnel through it (<= 3 bytes); IntValue/FloatValue::valid_syntax and their "
+                "serde visitors vs the lexical grammar for every string <= 5/4 bytes (7/6 thorough) over a 16-character alphabet; "
+                "IntValue::from(i32)/try_to_i32 round trip on the edge ranges (all i32 attempted in the thorough tier).",
+        "design_ref": "DESIGN.md section 4, C10",
+        "note": "alloc::fmt::format stubbed; f64 conversions and type-reference print/parse are outside the claim.",
+    },
     "C31": {
         "engine": "kani+mir2smt",
         "technique": "bounded model checking (Kani/CBMC, full 63-bit domain) + MIR->SMT (z3, cvc5) with symbolic thread schedule",
@@ -48,7 +58,6 @@ NOT_APPLICABLE = {
     "C07": "conditional on the trailing-hole harness (DESIGN.md C07); default not applicable: " + _P,
     "C08": "parser + fmt pretty-printer + parser again; " + _P,
     "C09": "serialize_string_value writes through core::fmt::Formatter and the way back goes through the lexer; " + _P,
-    "C10": "check not built yet in this commit (planned: names, numeric literal syntax, i32)",
     "C11": "check not built yet in this commit (planned: get_line_column on <= 3 chars)",
     "C12": _S + "; also " + _P,
     "C13": "SchemaBuilder/ExecutableDocumentBuilder over IndexMap; " + _S,
